@@ -12,25 +12,37 @@ import bisect
 import random
 
 from fibertree import Fiber, Payload, Tensor
+from fibertree.core.coord_payload import CoordPayload
 
 from fvmon import gen
 from fvmon.observe import content, snap, unbox, RC, WF
 
 SPEC = {
-    "anchors": ["fibertree.core.fiber:Fiber.getPayload", "fibertree.core.fiber:Fiber.getPayloadRef", "fibertree.core.fiber:Fiber.getPosition", "fibertree.core.fiber:Fiber.getPositionRef", "fibertree.core.fiber:Fiber._coordExists", "fibertree.core.fiber:Fiber._createDefault", "fibertree.core.fiber:Fiber._instantiateDefault", "fibertree.core.payload:Payload.__iadd__", "fibertree.core.payload:Payload.__ilshift__", "fibertree.core.tensor:Tensor.getPayload", "fibertree.core.tensor:Tensor.getPayloadRef", "fibertree.core.fiber:Fiber.__getitem__"],
+    "anchors": ["fibertree.core.fiber:Fiber.getPayload", "fibertree.core.fiber:Fiber.getPayloadRef", "fibertree.core.fiber:Fiber.getPosition", "fibertree.core.fiber:Fiber.getPositionRef", "fibertree.core.fiber:Fiber._coordExists", "fibertree.core.fiber:Fiber._createDefault", "fibertree.core.fiber:Fiber._instantiateDefault", "fibertree.core.payload:Payload.__iadd__", "fibertree.core.payload:Payload.__ilshift__", "fibertree.core.tensor:Tensor.getPayload", "fibertree.core.tensor:Tensor.getPayloadRef", "fibertree.core.fiber:Fiber.__getitem__", "fibertree.core.fiber:Fiber.__setitem__", "fibertree.core.coord_payload:CoordPayload.__ilshift__", "fibertree.core.coord_payload:CoordPayload.__iadd__"],
     "rule": ("case = tensor of depth 0-3 (or a free depth-1 fiber), canonical or holding explicit defaults / empty "
              "sub-fibers, default 0 or 7, + a history of 10-30 (quick) / 10-100 (thorough) accesses over {getPayload "
              "(full / partial point, allocate on/off, caller default), getPayloadRef (full / partial) followed by "
-             "<<= / += / *= / -= through the handle or nothing, writes through handles obtained earlier, sub-fiber "
-             "assignment at a prefix, getPosition, getPositionRef, f[pos], every legal start_pos (plain or boxed) "
-             "for one-coordinate accesses}, through Tensor.* and Fiber.* entry points.  Non-trivial = at least one "
+             "<<= / += / *= / -= (right-hand side a scalar or a boxed value) through the handle or nothing, writes "
+             "through handles obtained earlier, sub-fiber assignment at a prefix, getPosition, getPositionRef, f[pos], "
+             "writes through position handles (pos from getPosition / getPositionRef / a raw, possibly negative index; "
+             "h = f[pos]; h OP= rhs, or the statement form f[pos] OP= rhs; rhs a scalar, a boxed value, or an element "
+             "of the same fiber / another leaf fiber of the tree / a separate fiber; optionally followed by an in-place "
+             "update at the source or the target point, which must leave the other one alone), every legal start_pos "
+             "(plain or boxed) for one-coordinate accesses}, through Tensor.* and Fiber.* entry points.  The separate "
+             "source fiber has its own map and is compared after every step.  Non-trivial = at least one "
              "write through a handle and one later read of a written point; distinct = distinct case."),
     "shards": {"quick": 16, "thorough": 16},
     "min_counts": {"quick": {"evaluations": 300, "reads_checked": 3000, "refs_checked": 1500, "model_compares": 5000,
-                             "startpos_checked": 500, "walk_steps": 500, "coord2pos_contract_evals": 5000, "fresh_default_checked": 300}},
+                             "startpos_checked": 500, "walk_steps": 500, "coord2pos_contract_evals": 5000, "fresh_default_checked": 300,
+                             "handles_checked": 2000, "handle_form_handle": 800, "handle_form_statement": 800,
+                             "handle_pos_getPosition": 500, "handle_pos_getPositionRef": 800, "handle_pos_raw": 250,
+                             "handle_rhs_payload": 300, "handle_rhs_element_same": 150, "handle_rhs_element_tree": 120,
+                             "handle_rhs_element_ext": 300, "handle_independence_checked": 300}},
     "assumptions": [
         "legal start_pos: None, or p with 0 <= p < len(coords) and coords[p] <= coord; single-coordinate accesses only (as the API asserts)",
         "saved-position statistics are not part of the tree and are not compared",
+        "an element (CoordPayload) is used as a right-hand side only for writes through position handles f[pos]; Payload.__ilshift__ and the Payload arithmetic are documented for 'Payload or scalar' operands only",
+        "position handles are taken at the leaf level (the payload of an interior element is a sub-fiber; sub-fiber assignment is exercised by the prefix assignment)",
         "free (unowned) fibers at depth 1, and at depth 2 only as canonical trees with a non-empty root (an unowned empty interior fiber cannot know its payload type)",
     ],
 }
@@ -80,7 +92,9 @@ def generate(rng, tier, shard, nshards, mon):
             if not spec:
                 spec = [[rng.randrange(ext[0]), [[rng.randrange(ext[1]), 5 if default != 5 else 6]]]]
         init = {"depth": depth, "ext": ext, "default": default, "spec": spec, "free": free,
-                "shape": [e + 2 for e in ext] if rng.random() < 0.7 else None, "root0": rng.choice([0, 3])}
+                "shape": [e + 2 for e in ext] if rng.random() < 0.7 else None, "root0": rng.choice([0, 3]),
+                # a separate free fiber whose elements serve as right-hand sides of assignments / updates
+                "xspec": gen.rand_leaf_spec(rng, 5, 0.7, 0.15, default)}
         ops = [_gen_op(rng, init) for _ in range(rng.randint(lo, hi))]
         yield {"init": init, "ops": ops}
 
@@ -90,13 +104,23 @@ def _gen_op(rng, init):
     ext = init["ext"]
     pt = [rng.randint(0, e + 1) for e in ext]
     kinds = ["get", "get", "get_partial", "get_noalloc", "ref", "ref", "ref", "ref_partial", "stale", "assign_prefix",
-             "getpos", "getposref", "getitem", "get_sp", "ref_sp", "getpos_sp", "drill", "walk", "walk"]
+             "getpos", "getposref", "getitem", "get_sp", "ref_sp", "getpos_sp", "drill", "walk", "walk",
+             "handle", "handle", "handle"]
     k = rng.choice(kinds)
     op = {"op": k, "pt": pt, "via": rng.choice(["tensor", "root"]), "r": rng.randrange(1 << 16),
           "act": rng.choice(["none", "set", "set", "add", "mul", "sub", "default"]), "v": rng.choice([1, 2, 3, -1, 5, 0]),
           "cut": rng.randint(1, max(1, depth - 1)) if depth > 1 else 1, "cd": rng.choice([None, 42, -5, 0]),
           "path": [rng.randrange(6) for _ in range(rng.randint(0, max(0, depth - 1)))], "c": rng.randint(0, 7),
-          "boxed": rng.random() < 0.3, "hold": rng.random() < 0.4}
+          "boxed": rng.random() < 0.3, "hold": rng.random() < 0.4,
+          # right-hand side of a write: a scalar, a boxed value, or (position handles only) an element of a fiber
+          "rhs": rng.choice(["scalar", "scalar", "payload", "element", "element"])}
+    if k == "handle":
+        op.update({"path": [rng.randrange(6) for _ in range(max(0, depth - 1))],
+                   "posvia": rng.choice(["getPosition", "getPosition", "getPositionRef", "getPositionRef", "raw"]),
+                   "form": rng.choice(["handle", "statement"]),
+                   "src": rng.choice(["same", "tree", "ext", "ext"]), "r2": rng.randrange(1 << 16),
+                   "path2": [rng.randrange(6) for _ in range(max(0, depth - 1))],
+                   "follow": rng.choice(["none", "source", "target"])})
     if k == "walk":
         cs = sorted(rng.sample(range(0, 10), rng.randint(2, 6)))
         op["walk"] = [[c, rng.choice(["getPayload", "getPosition", "getPayload", "getPayloadRef", "getPositionRef"])] for c in cs]
@@ -145,6 +169,7 @@ def _raw_lookup(root, pt):
 
 
 def _apply_act(ref, act, v, d):
+    """v: a scalar, a Payload, or (when ref is a position handle) an element of a fiber."""
     if act == "set":
         ref <<= v
     elif act == "add":
@@ -173,8 +198,11 @@ def run_case(case, mon):
         _run_rank0(case, mon, t)
         return
     model = dict(content(subject, d))
-    held = []           # (point, ref)
+    held = []           # (point, ref)   ref: the stored Payload, or a position handle f[pos] aliasing it
     wrote, read_written = set(), False
+    # the separate source fiber (elements of it are assigned into the tree; it must never change unless written)
+    xf = gen.fiber_from_spec(init.get("xspec", []), d)
+    xmodel = {p_[0]: v_ for p_, v_ in content(xf, d).items()}
 
     def entry(op):
         return t if (t is not None and op["via"] == "tensor") else root
@@ -182,7 +210,10 @@ def run_case(case, mon):
     def compare(label):
         mon.count("model_compares")
         got = content(subject, d)
-        return mon.check(got == model, f"model:{label}", f"after {label}: tree content {got} != model {model}")
+        ok = mon.check(got == model, f"model:{label}", f"after {label}: tree content {got} != model {model}")
+        gx = {p_[0]: v_ for p_, v_ in content(xf, d).items()}
+        return mon.check(gx == xmodel, f"model:{label}:source-fiber",
+                         f"after {label}: the separate fiber whose element was the right-hand side holds {gx}, expected {xmodel}") and ok
 
     for i, op in enumerate(case["ops"]):
         k = op["op"]
@@ -243,7 +274,7 @@ def run_case(case, mon):
                 if not compare(f"{k}:create"):
                     return
                 old = model.get(pt, d)
-                _apply_act(ref, op["act"], op["v"], d)
+                _apply_act(ref, op["act"], Payload(op["v"]) if op["rhs"] == "payload" else op["v"], d)
                 new = _model_act(old, op["act"], op["v"], d)
                 if new != d:
                     model[pt] = new
@@ -273,7 +304,7 @@ def run_case(case, mon):
                 hp, ref = held[op["r"] % len(held)]
                 old = model.get(hp, d)
                 act = op["act"] if op["act"] != "none" else "add"
-                _apply_act(ref, act, op["v"], d)
+                _apply_act(ref, act, Payload(op["v"]) if op["rhs"] == "payload" else op["v"], d)
                 new = _model_act(old, act, op["v"], d)
                 if new != d:
                     model[hp] = new
@@ -395,6 +426,133 @@ def run_case(case, mon):
                         pos = f.getPositionRef(c, start_pos=spv)
                         mon.check(isinstance(pos, int) and pos < len(f.coords) and f.coords[pos] == c, "walk:getPositionRef:index",
                                   f"walk getPositionRef({c}, start_pos={sp}) returned {pos}, coords {f.coords}")
+            elif k == "handle":
+                # write through a position-based handle: pos from getPosition / getPositionRef / the raw index,
+                # h = f[pos] (an element aliasing the stored payload), then  h OP= rhs  or the statement form
+                # f[pos] OP= rhs, where rhs is a scalar, a boxed value or an element of the same fiber / another
+                # leaf fiber of the tree / a separate fiber.  Afterwards the point reads back the new value, no
+                # other point (of the tree or of the source fiber) changed, and the assigned point stays
+                # independent of the point its value came from.
+                f, pre = _resolve(root, op["path"])
+                if len(pre) != depth - 1:
+                    f, pre = entry(op).getPayloadRef(*pt[:depth - 1]), pt[:depth - 1]
+                    if not isinstance(f, Fiber) or f is not _raw_lookup(root, pre):
+                        mon.violation("ref:partial:not-aliasing", f"getPayloadRef{pre} is not the stored sub-fiber")
+                        return
+                c, posvia = op["c"], op["posvia"]
+                if posvia == "raw" and not f.coords:
+                    posvia = "getPositionRef"
+                if posvia == "getPosition" and c not in f.coords:
+                    if f.coords:
+                        c = f.coords[op["r"] % len(f.coords)]
+                    else:
+                        posvia = "getPositionRef"
+                if posvia == "raw":
+                    pos = op["r"] % (2 * len(f.coords)) - len(f.coords)
+                    c = f.coords[pos]
+                elif posvia == "getPosition":
+                    pos = f.getPosition(c)
+                    want = f.coords.index(c)
+                    if not mon.check(pos == want, "getPosition:index", f"getPosition({c}) returned {pos}, raw index is {want} in {f.coords}"):
+                        return
+                else:
+                    pos = f.getPositionRef(c)
+                    if not mon.check(isinstance(pos, int) and 0 <= pos < len(f.coords) and f.coords[pos] == c, "getPositionRef:index",
+                                     f"getPositionRef({c}) returned {pos}, coords {f.coords}"):
+                        return
+                    if not compare("handle:getPositionRef:create"):
+                        return
+                tp = pre + (c,)
+                mon.count("handles_checked")
+                mon.count(f"handle_pos_{posvia}")
+                # right-hand side; its value comes from the map, never from the library
+                rhs_kind, act = op["rhs"], op["act"]
+                if act == "none":
+                    act = "set"
+                if act == "default":
+                    rhs_kind = "scalar"
+                sf = spt = None
+                if rhs_kind == "element":
+                    skind = op["src"]
+                    if skind == "tree":
+                        sf, spre = _resolve(root, op["path2"])
+                        if len(spre) != depth - 1 or not sf.coords:
+                            skind = "same"
+                    if skind == "same":
+                        sf, spre = f, pre
+                    if skind == "ext":
+                        sf, spre = xf, None
+                    if not sf.coords:
+                        rhs_kind = "scalar"
+                    else:
+                        spos = op["r2"] % len(sf.coords)
+                        sc = sf.coords[spos]
+                        if spre is None:
+                            rv = xmodel.get(sc, d)
+                        else:
+                            spt = spre + (sc,)
+                            rv = model.get(spt, d)
+                        rhs = sf[spos]
+                        mon.check(isinstance(rhs, CoordPayload) and rhs.coord == sc and rhs.payload is sf.payloads[spos], "getitem:element",
+                                  f"f[{spos}] returned {rhs!r}, raw lists hold ({sc}, {sf.payloads[spos]!r})")
+                        mon.count(f"handle_rhs_element_{skind}")
+                if rhs_kind != "element":
+                    rv = d if act == "default" else op["v"]
+                    rhs = Payload(rv) if rhs_kind == "payload" else rv
+                    mon.count(f"handle_rhs_{rhs_kind}")
+                old = model.get(tp, d)
+                new = _model_act(old, act, rv, d)
+                form = op["form"]
+                label = f"handle:{form}:{rhs_kind}:{act}"
+                if form == "handle":
+                    h = f[pos]
+                    mon.check(h.coord == c and h.payload is f.payloads[pos], "getitem:element",
+                              f"f[{pos}] returned ({h.coord}, {h.payload!r}), raw lists hold ({f.coords[pos]}, {f.payloads[pos]!r})")
+                    h = _apply_act(h, act, rhs, d)
+                    if op["hold"]:
+                        held.append((tp, h))
+                elif act == "set":
+                    f[pos] <<= rhs
+                elif act == "add":
+                    f[pos] += rhs
+                elif act == "mul":
+                    f[pos] *= rhs
+                elif act == "sub":
+                    f[pos] -= rhs
+                else:
+                    f[pos] <<= d
+                mon.count(f"handle_form_{form}")
+                if new != d:
+                    model[tp] = new
+                else:
+                    model.pop(tp, None)
+                wrote.add(tp)
+                rd = entry(op).getPayload(*tp)
+                mon.check(unbox(rd) == new, f"handle:{form}:write-not-visible",
+                          f"after {act} of a {rhs_kind} through {'h = f[pos]' if form == 'handle' else 'f[pos] OP= ...'} at {tp}, read gives {rd!r}, expected {new!r}")
+                if rhs_kind == "element" and op["follow"] != "none" and (spt is None or spt != tp):
+                    # the two points must stay independent: update one of them in place, the other keeps its value
+                    if not compare(label):
+                        return
+                    mon.count("handle_independence_checked")
+                    label += ":then-update-" + op["follow"]
+                    if op["follow"] == "target":
+                        ref = f.getPayloadRef(c)
+                        ref += 1
+                        if new + 1 != d:
+                            model[tp] = new + 1
+                        else:
+                            model.pop(tp, None)
+                    else:
+                        ref = sf.getPayloadRef(sc)
+                        ref += 1
+                        mdl, key_ = (xmodel, sc) if spt is None else (model, spt)
+                        if rv + 1 != d:
+                            mdl[key_] = rv + 1
+                        else:
+                            mdl.pop(key_, None)
+                        if spt is not None:
+                            wrote.add(spt)
             elif k == "drill":
                 if depth < 2:
                     continue
